@@ -76,6 +76,8 @@ def design(ctx):
             ("XmlChoices", "MCXmlAsShipped.cfg", "xml as shipped: one sub-list per run of children (expected: DecodedOK violated)", None, True)]
     if not quick:
         jobs.append(("O5mTable", "MCO5mT.cfg", "o5m: N=4, 4 optional resets/skips", O5M_ACTIONS, False))
+        for cfg in ("MCO5mFill.cfg", "MCO5mFill2.cfg", "MCO5mFill3.cfg"):
+            jobs.append(("O5mTable", cfg, "o5m: FillerRun (closed form) = the single steps, " + cfg, ["FillerRun", "ObjStart", "Str", "ObjEnd"], False))
 
     def one(job):
         mod, cfg, label, acts, expect_violation = job
